@@ -263,63 +263,64 @@ example : iterLive 3 0 [3, 3, 2] = .raised ∧ iterSnapshot ["t0", "d1", "t2"] [
 
 /-! ## stopping never stalls: the micro-steps of `_timer` and `_daemon`
 
-  FULL CLAUSE (false of the code, finding F12): "from every program point, in every environment and for
-  EVERY handler behaviour, the coroutine suspends or returns within k steps".
   Nothing in `execute_handlers_once` / `invocation.invoke` / `patch_and_check` (empty patch) suspends by
-  itself. A run reports `yields` (it gave control to the loop) or not; `Outcome.good` is the exact guard:
-  a run that does not yield and is to be retried is retried after a positive delay. -/
+  itself: a run reports `yields` (it gave control to the loop) or not, and the theorems quantify over both.
+  Since /repo b04c26c every iteration of both retry loops starts with `await asyncio.sleep(0)`
+  (`yielding`, tied to the AST), since 6ccf081 the after-run idle loop tests the stopper (`guarded`). -/
 
-/-- For the tree under test (`guarded = treeGuarded`), from EVERY program point, in EVERY environment
-    (stopper set or not, any clock, any idle-reset time), for EVERY stream of handler outcomes that
-    satisfies the guard (yielding or not, failing for good, …) and every timer configuration with positive
-    `idle`/`interval`: the coroutine suspends or returns within 10 steps. -/
-theorem progress_partial (c : TCfg) (e : TEnv) (os : Nat → Outcome) (l : TLoc) (hg : c.guarded = treeGuarded)
-    (hidle : ∀ d, c.idle = some d → 0 < d) (hint : ∀ v, c.interval = some v → 0 < v)
-    (hgood : ∀ n, (os n).good = true) : settles c e os 10 l = true :=
-  settles_all c e os hg hidle hint hgood l
+/-- For the tree under test (`guarded = treeGuarded`, `yielding = treeYielding`), from EVERY program
+    point, in EVERY environment (stopper set or not, any clock, any idle-reset time), for EVERY stream
+    of handler outcomes (yielding or not, retried with any delay incl. 0, failing for good, …) and every
+    timer configuration with a positive `idle`: `_timer` suspends or returns within 6 steps. -/
+theorem progress (c : TCfg) (e : TEnv) (os : Nat → Outcome) (l : TLoc) (hg : c.guarded = treeGuarded)
+    (hy : c.yielding = treeYielding) (hidle : ∀ d, c.idle = some d → 0 < d) : settles c e os 6 l = true :=
+  settles_all c e os hy hg hidle l
 
-/-- The guard is exact: an async handler that neither awaits nor finishes and is retried with delay ≤ 0
-    (`TemporaryError(delay=0)`, `delay=None`, `backoff=0`) on a timer without `idle`, stopper not set: from
-    the loop head NO number of steps reaches a suspension or a return — nothing else ever runs again,
-    in particular nobody can set the stopper. Any interval, sharp or not, any clock. -/
-theorem nonyielding_retry_spins (c : TCfg) (e : TEnv) (os : Nat → Outcome) (l : TLoc)
+/-- `_daemon` (`while not stopper.is_set() and not state.done: await asyncio.sleep(0); …; if state.delay:
+    sleep`): from every program point, environment and outcome stream it suspends or returns within 3 steps. -/
+theorem daemon_progress (initialDelay : Option Tick) (e : TEnv) (os : Nat → Outcome) (l : DLoc) :
+    dsettles initialDelay treeYielding e os 3 l = true :=
+  dsettles_all initialDelay e os l
+
+/-- the outcome that used to block the loop: non-yielding, retried with delay 0 — now harmless, and
+    the hypotheses of `progress` are met by an ordinary interval timer -/
+example :
+    let c : TCfg := { initialDelay := none, idle := none, interval := some 64, sharp := false, guarded := treeGuarded, yielding := treeYielding }
+    let e : TEnv := { now := 100, stop := false, idleReset := 0 }
+    let o : Outcome := { done := false, failed := false, errDelay := 0, yields := false }
+    let l : TLoc := { pc := .invoke, started := 0, done := false, failed := false, errDelay := 0, runs := 0 }
+    settles c e (fun _ => o) 3 l = true ∧ settles c e (fun _ => o) 2 l = false ∧
+      dsettles none treeYielding e (fun _ => o) 3 { pc := .invoke, done := false, delay := 0, runs := 0 } = true := by
+  decide
+
+/-- HISTORICAL (finding F12, fixed by b04c26c; `yielding = false`): an async handler that neither awaits
+    nor finishes and is retried with delay ≤ 0 on a timer without `idle`, stopper not set: from the loop
+    head NO number of steps reached a suspension or a return. -/
+theorem nonyielding_retry_spins (c : TCfg) (e : TEnv) (os : Nat → Outcome) (l : TLoc) (hny : c.yielding = false)
     (hi : c.idle = none) (hs : e.stop = false) (hpc : l.pc = .head) (hd : l.done = false)
     (hbad : ∀ n, (os n).yields = false ∧ (os n).done = false ∧ (os n).errDelay ≤ 0) :
     ∀ k, settles c e os k l = false :=
-  fun k => retrySpin_never_settles c e os hi hs hbad k l (by simp [retrySpin, hpc, hd])
+  fun k => retrySpin_never_settles c e os hny hi hs hbad k l (by simp [retrySpin, hpc, hd])
 
-/-- the witness replayed on the real code (corpus/C09/F12-timer.json): `@kopf.timer(interval=1.0)`,
-    `async def fn(**_): raise kopf.TemporaryError("again", delay=0)` -/
+/-- HISTORICAL witness of F12 (corpus/C09/F12-timer.json is its regression): `@kopf.timer(interval=1.0)`,
+    `async def fn(**_): raise kopf.TemporaryError("again", delay=0)` before the repair. -/
 theorem nonyielding_retry_witness :
-    let c : TCfg := { initialDelay := none, idle := none, interval := some 64, sharp := false, guarded := treeGuarded }
+    let c : TCfg := { initialDelay := none, idle := none, interval := some 64, sharp := false, guarded := true, yielding := false }
     let e : TEnv := { now := 100, stop := false, idleReset := 0 }
     let o : Outcome := { done := false, failed := false, errDelay := 0, yields := false }
     let l : TLoc := { pc := .head, started := 0, done := false, failed := false, errDelay := 0, runs := 0 }
     o.good = false ∧ (∀ k, settles c e (fun _ => o) k l = false) ∧
-      settles c e (fun _ => { o with errDelay := 1 }) 4 l = true ∧ settles c e (fun _ => { o with yields := true }) 2 l = true := by
+      settles { c with yielding := true } e (fun _ => o) 1 l = true := by
   intro c e o l
-  refine ⟨by decide, ?_, by decide, by decide⟩
-  exact nonyielding_retry_spins c e _ l rfl rfl rfl rfl (fun _ => ⟨rfl, rfl, by decide⟩)
+  refine ⟨by decide, ?_, by decide⟩
+  exact nonyielding_retry_spins c e _ l rfl rfl rfl rfl rfl (fun _ => ⟨rfl, rfl, by decide⟩)
 
-/-- `_daemon` has the same retry loop (`while not stopper.is_set() and not state.done: … if state.delay:
-    sleep`): under the same guard it suspends or returns within 5 steps from every program point… -/
-theorem daemon_progress_partial (initialDelay : Option Tick) (e : TEnv) (os : Nat → Outcome) (l : DLoc)
-    (hgood : ∀ n, (os n).good = true) : dsettles initialDelay e os 5 l = true :=
-  dsettles_all initialDelay e os hgood l
-
-/-- …and outside the guard it never does (corpus/C09/F12-daemon.json). -/
+/-- HISTORICAL (F12, `_daemon` before b04c26c; corpus/C09/F12-daemon.json is its regression). -/
 theorem daemon_nonyielding_retry_spins (initialDelay : Option Tick) (e : TEnv) (os : Nat → Outcome) (l : DLoc)
     (hs : e.stop = false) (hpc : l.pc = .head) (hd : l.done = false)
     (hbad : ∀ n, (os n).yields = false ∧ (os n).done = false ∧ (os n).errDelay ≤ 0) :
-    ∀ k, dsettles initialDelay e os k l = false :=
+    ∀ k, dsettles initialDelay false e os k l = false :=
   fun k => dretrySpin_never_settles initialDelay e os hs hbad k l (by simp [dretrySpin, hpc, hd])
-
-example :
-    let e : TEnv := { now := 100, stop := false, idleReset := 0 }
-    let o : Outcome := { done := false, failed := false, errDelay := 0, yields := false }
-    let l : DLoc := { pc := .head, done := false, delay := 0, runs := 0 }
-    dsettles none e (fun _ => o) 60 l = false ∧ dsettles none e (fun _ => { o with errDelay := 32 }) 3 l = true := by
-  decide
 
 /-- HISTORICAL (finding F1, fixed by 6ccf081): without the loop guard, inside the spin set NO number of
     steps reaches a suspension or a return (nothing else gets to run meanwhile). -/
@@ -330,7 +331,7 @@ theorem idle_only_spins (c : TCfg) (e : TEnv) (os : Nat → Outcome) (l : TLoc) 
 /-- HISTORICAL witness of F1: `@kopf.timer(idle=1s)` before the repair, one run at tick 129, nothing
     changed since, the stopper gets set while the timer sleeps in its after-run loop. -/
 theorem idle_only_spins_witness :
-    let c : TCfg := { initialDelay := none, idle := some 64, interval := none, sharp := false, guarded := false }
+    let c : TCfg := { initialDelay := none, idle := some 64, interval := none, sharp := false, guarded := false, yielding := false }
     let e : TEnv := { now := 256, stop := true, idleReset := 64 }
     let l : TLoc := { pc := .idleLoop, started := 129, done := true, failed := false, errDelay := 0, runs := 1 }
     let o : Outcome := { done := true, failed := false, errDelay := 0, yields := true }
@@ -341,19 +342,11 @@ theorem idle_only_spins_witness :
 
 /-- the same state in the current tree: the loop is left and `_timer` returns in two steps -/
 example :
-    let c : TCfg := { initialDelay := none, idle := some 64, interval := none, sharp := false, guarded := treeGuarded }
+    let c : TCfg := { initialDelay := none, idle := some 64, interval := none, sharp := false, guarded := treeGuarded, yielding := treeYielding }
     let e : TEnv := { now := 256, stop := true, idleReset := 64 }
     let l : TLoc := { pc := .idleLoop, started := 129, done := true, failed := false, errDelay := 0, runs := 1 }
     let o : Outcome := { done := true, failed := false, errDelay := 0, yields := true }
     spinning c e l = false ∧ settles c e (fun _ => o) 2 l = true ∧ settles c e (fun _ => o) 1 l = false := by decide
-
-/-- a timer whose series has failed for good: its non-suspending "run" is followed by a real sleep -/
-example :
-    let c : TCfg := { initialDelay := none, idle := none, interval := some 64, sharp := true, guarded := treeGuarded }
-    let e : TEnv := { now := 500, stop := false, idleReset := 0 }
-    let l : TLoc := { pc := .head, started := 436, done := true, failed := true, errDelay := 0, runs := 3 }
-    let o : Outcome := { done := true, failed := true, errDelay := 0, yields := false }
-    settles c e (fun _ => o) 3 l = true ∧ settles c e (fun _ => o) 2 l = false := by decide
 
 /-! ## non-vacuity -/
 
